@@ -71,6 +71,12 @@ func (e JSchemaError) Filename() string {
 	return e.file.Name()
 }
 
+// IsInFile reports whether the error is positioned in the given file (the file
+// itself, not another one with the same name).
+func (e JSchemaError) IsInFile(file *fs.File) bool {
+	return e.file == file
+}
+
 func (e JSchemaError) Message() string {
 	return e.message
 }
